@@ -311,28 +311,30 @@ def extras(task, tier, seed):
 # ------------------------------------------------------------------------------------------ lemmas on Symbols
 
 STR = z3.StringSort()
-SETS = z3.ArraySort(STR, z3.BoolSort())
-MAP = z3.ArraySort(STR, STR)
+OBJ = KIND_SORT["obj"]
+NAMES = z3.ArraySort(OBJ, z3.BoolSort())   # sets of template names: names are abstract atoms (only equality matters)
+IDENTS = z3.ArraySort(STR, z3.BoolSort())  # sets of generated identifiers (strings built by the real f-string)
+MAP = z3.ArraySort(OBJ, STR)
 
 
 def mk_symbols(st, tag, parent=None, level=None):
-    refs = st.alloc(HDict(dom=z3.Const(f"{tag}.refs.dom", SETS), val=z3.Const(f"{tag}.refs.val", MAP), size=z3.Int(f"{tag}.refs.n"), kk="str", vk="str"), initial=True)
-    loads = st.alloc(HDict(dom=z3.Const(f"{tag}.loads.dom", SETS), val=z3.Const(f"{tag}.loads.val", z3.ArraySort(STR, KIND_SORT["obj"])),
+    refs = st.alloc(HDict(dom=z3.Const(f"{tag}.refs.dom", NAMES), val=z3.Const(f"{tag}.refs.val", MAP), size=z3.Int(f"{tag}.refs.n"), kk="obj", vk="str"), initial=True)
+    loads = st.alloc(HDict(dom=z3.Const(f"{tag}.loads.dom", IDENTS), val=z3.Const(f"{tag}.loads.val", z3.ArraySort(STR, OBJ)),
                            size=z3.Int(f"{tag}.loads.n"), kk="str", vk="obj"), initial=True)
-    stores = st.alloc(HSet(dom=z3.Const(f"{tag}.stores.dom", SETS), size=z3.Int(f"{tag}.stores.n"), kk="str"), initial=True)
+    stores = st.alloc(HSet(dom=z3.Const(f"{tag}.stores.dom", NAMES), size=z3.Int(f"{tag}.stores.n"), kk="obj"), initial=True)
     o = A.obj(st, IDT.Symbols, tag, fields={"level": level if level is not None else sym("level", "int"), "parent": parent, "refs": refs, "loads": loads, "stores": stores})
     return o, refs, loads, stores
 
 
 def ident_term(level, name_t):
-    """the identifier _define_ref builds: f"l_{level}_{name}" (term shape obtained from the real function, see ident_shape)"""
+    """the identifier _define_ref builds: f"l_{level}_{name}" - the term the interpreter produces for the real f-string"""
     from pyvc import models
     lv = models.py_str_int(level.t) if isinstance(level, Sym) else z3.StringVal(str(level))
-    return z3.Concat(z3.StringVal("l_"), lv, z3.StringVal("_"), name_t)
+    return z3.Concat(z3.StringVal("l_"), lv, z3.StringVal("_"), models.py_str_obj(name_t))
 
 
 def inv_terms(st, refs, loads, stores, level):
-    n = z3.Const(fresh_name("n"), STR)
+    n = z3.Const(fresh_name("n"), OBJ)
     r, l, s = st.get(refs), st.get(loads), st.get(stores)
     return [z3.ForAll([n], z3.Implies(z3.Select(s.dom, n), z3.Select(r.dom, n))),
             z3.ForAll([n], z3.Implies(z3.Select(r.dom, n), z3.Select(l.dom, z3.Select(r.val, n)))),
@@ -349,9 +351,9 @@ def set_specs(I):
         if h.items is not None:
             if h.items:
                 return None
-            h.items, h.dom, h.size, h.kk = None, z3.K(STR, z3.BoolVal(False)), z3.IntVal(0), "str"
-        nd = z3.Const(fresh_name("set_upd"), SETS)
-        k = z3.Const(fresh_name("k"), STR)
+            h.items, h.dom, h.size, h.kk = None, z3.K(OBJ, z3.BoolVal(False)), z3.IntVal(0), "obj"
+        nd = z3.Const(fresh_name("set_upd"), NAMES)
+        k = z3.Const(fresh_name("k"), OBJ)
         s.assume(z3.ForAll([k], z3.Select(nd, k) == z3.Or(z3.Select(h.dom, k), z3.Select(hs.dom, k))))
         h.dom, h.size = nd, z3.Int(fresh_name("set_n"))
         return [(s, None)]
@@ -362,8 +364,8 @@ def set_specs(I):
         if not (isinstance(src, Ref) and isinstance(s.get(src), HSet) and s.get(src).items is None) or h.items is not None:
             return None
         hs = s.get(src)
-        nd = z3.Const(fresh_name("set_diff"), SETS)
-        k = z3.Const(fresh_name("k"), STR)
+        nd = z3.Const(fresh_name("set_diff"), NAMES)
+        k = z3.Const(fresh_name("k"), OBJ)
         s.assume(z3.ForAll([k], z3.Select(nd, k) == z3.And(z3.Select(h.dom, k), z3.Not(z3.Select(hs.dom, k)))))
         h.dom, h.size = nd, z3.Int(fresh_name("set_n"))
         return [(s, None)]
@@ -407,7 +409,7 @@ def branch_update_lemma(task, tier, seed):
             R0d, R0v = s.get(refs).dom, s.get(refs).val
             body = s.fork()
             body.get(loads).val = z3.Const(fresh_name("loads_val_havoc"), body.get(loads).val.sort())
-            name = fresh("name", "str")
+            name = fresh("name", "obj")
             body.assume(z3.Select(hs.dom, name.t))
             n_trace = len(body.trace)
             outs = []
@@ -456,7 +458,7 @@ def branch_update_lemma(task, tier, seed):
                 if j == 1:
                     continue  # loads values were havoced by the cut; key sets are what matters: checked through dom below
                 obligations.append((f"inv_restored[{j}]", list(s.pc), t, 0))
-            n_ = z3.Const(fresh_name("n"), STR)
+            n_ = z3.Const(fresh_name("n"), OBJ)
             r_, l_ = s.get(refs), s.get(loads)
             obligations.append(("inv_restored[1]", list(s.pc), z3.ForAll([n_], z3.Implies(z3.Select(r_.dom, n_), z3.Select(l_.dom, z3.Select(r_.val, n_)))), 0))
         by = {}
@@ -479,7 +481,7 @@ def branch_update_lemma(task, tier, seed):
                           "vc", witness={"function": "Symbols.branch_update", "lemma": nm} if status == "refuted" else None))
         # non-vacuity: the loop body is reachable
         reach = [pc for nm, pc, cond, ln in obligations if nm == "existing_key"]
-        if not reach or check_sat(reach[0], 3000, seed, use_cvc5=False).status == "unsat":
+        if not reach or check_sat(reach[0], 1500, seed, use_cvc5=False).status == "unsat":
             rs.append(Res(f"C30.lemma.branch_update.{tag}.nonvacuous", "error", "z3", 0, "set loop body unreachable under the assumed invariant", "vc"))
     return rs
 
@@ -504,7 +506,7 @@ def symbols_inv(method):
                 parent, *_ = mk_symbols(st, "parent", level=sym("parent_level", "int"))
             selfo, refs, loads, stores = mk_symbols(st, "self", parent, level)
             st.assume(*inv_terms(st, refs, loads, stores, level))
-            name = sym("name", "str")
+            name = sym("name", "obj")
             args = [selfo, name]
             if method == "_define_ref":
                 args = [selfo, name, (sym("action", "str"), sym("param", "obj"))]
